@@ -83,6 +83,49 @@ C_MUTANTS = [
     ('C04', ['do_cast'], 'src/c/_cffi_backend.c',
      '                return new_simple_cdata(cdsrc->c_data, ct);\n            }\n        }\n        if (PyCFunction_Check(ob)) {',
      '                return new_simple_cdata(cdsrc->c_data, cdsrc->c_type);\n            }\n        }\n        if (PyCFunction_Check(ob)) {'),
+    ('C23', ['set iteration'], 'src/cffi/recompiler.py',
+     '        for decl in sorted(localvars):', '        for decl in localvars:'),
+    ('C23', ['_make_c_or_py_source'], 'src/cffi/recompiler.py',
+     "            if f1.read(len(output) + 1) != output:", "            if f1.read(len(output)) != output:"),
+    ('C23', ['_make_c_or_py_source'], 'src/cffi/recompiler.py',
+     "        with open(tmp_file, 'w') as f1:\n            f1.write(output)\n        try:\n            os.rename(tmp_file, target_file)",
+     "        with open(target_file, 'w') as f1:\n            f1.write(output)\n        try:\n            os.rename(target_file, target_file)"),
+    ('C10', ['build_baseinttype'], 'src/cffi/model.py',
+     "            largest_value < (1 << (8*size2-sign))):", "            largest_value <= (1 << (8*size2-sign))):"),
+    ('C09', ['_parse_constant'], 'src/cffi/cparser.py',
+     "            elif exprnode.op == '%':\n                return left - self._c_div(left, right) * right",
+     "            elif exprnode.op == '%':\n                return left % right"),
+    ('C09', ['_parse_constant'], 'src/cffi/cparser.py',
+     "            elif exprnode.op == '|':\n                return left | right", "            elif exprnode.op == '|':\n                return left ^ right"),
+    ('C30', ['_parse_constant'], 'src/cffi/cparser.py',
+     "            if exprnode.op in ('<<', '>>') and right < 0:", "            if exprnode.op in ('<<',) and right < 0:"),
+    ('C35', ['get_other_libs'], 'src/cffi/pkgconfig.py',
+     'not x.startswith("-l")]', 'not x.startswith("-l") and not x.startswith("-W")]'),
+    ('C35', ['kwargs'], 'src/cffi/pkgconfig.py',
+     '"libraries": get_libraries(all_libs),', '"libraries": get_libraries(all_cflags),'),
+    ('C37', ['dl_read_variable'], 'src/c/_cffi_backend.c',
+     '    if (dl_check_closed(dlobj) < 0)\n        return NULL;\n\n    dlerror();   /* clear error condition */\n    data = dlsym(dlobj->dl_handle, varname);\n    if (data == NULL) {\n        const char *error = dlerror();\n        if (error != NULL) {',
+     '    dlerror();   /* clear error condition */\n    data = dlsym(dlobj->dl_handle, varname);\n    if (data == NULL) {\n        const char *error = dlerror();\n        if (error != NULL) {'),
+    ('C37', ['dl_close_lib'], 'src/c/_cffi_backend.c',
+     '        dlclose(dlobj->dl_handle);\n        dlobj->dl_handle = NULL;\n    }\n    Py_INCREF(Py_None);',
+     '        dlclose(dlobj->dl_handle);\n    }\n    Py_INCREF(Py_None);'),
+    ('C22', ['b_set_errno'], 'src/c/_cffi_backend.c',
+     '    else if (ival < INT_MIN || ival > INT_MAX) {', '    else if (ival < INT_MIN || ival > UINT_MAX) {'),
+    ('C17', ['cdata_richcompare'], 'src/c/_cffi_backend.c',
+     '        case Py_LE: res = (v_cdata <= w_cdata); break;', '        case Py_LE: res = (v_cdata <  w_cdata); break;'),
+    ('C16', ['_cdata_get_indexed_ptr'], 'src/c/_cffi_backend.c',
+     '        if (i >= get_array_length(cd)) {', '        if (i > get_array_length(cd)) {'),
+    ('C16', ['_cdata_getslicearg'], 'src/c/_cffi_backend.c',
+     '        if (stop > get_array_length(cd)) {', '        if (stop >= get_array_length(cd) + 2) {'),
+    ('C25', ['search_sorted'], 'src/c/parse_c_type.c',
+     '        else if (diff >= 0)\n            right = middle;', '        else if (diff > 0)\n            right = middle;'),
+    ('C15', ['_my_PyUnicode_AsChar16'], 'src/c/wchar_helper_3.h',
+     '            *result++ = 0xDC00 | (ordinal & 0x3FF);', '            *result++ = 0xDC00 | (ordinal & 0x1FF);'),
+    ('C11', ['cdl_4bytes'], 'src/c/cdlopen.c',
+     '    return (ssrc[0] << 24) | (usrc[1] << 16) | (usrc[2] << 8) | usrc[3];',
+     '    return (usrc[0] << 24) | (usrc[1] << 16) | (usrc[2] << 8) | usrc[3];'),
+    ('C11', ['format_four_bytes'], 'src/cffi/cffi_opcode.py',
+     '        (num >> 16) & 0xFF,', '        (num >> 16) & 0x7F,'),
     ('C03', ['export table'], 'src/c/_cffi_backend.c',
      '    _cffi_to_c_i32,\n    _cffi_to_c_u32,', '    _cffi_to_c_u32,\n    _cffi_to_c_i32,'),
 ]
@@ -128,7 +171,7 @@ def run_one(m):
         shutil.rmtree(out, True)
 
 
-def run(props=None, jobs=4):
+def run(props=None, jobs=3):
     from concurrent.futures import ThreadPoolExecutor
     ms = [m for m in C_MUTANTS if not props or m[0] in props]
     with ThreadPoolExecutor(jobs) as ex:
